@@ -204,6 +204,10 @@ func (l *IPFSLog) traverse(rootEntries iface.IPFSLogOrderedEntries, amount int, 
 
 	// Cache for checking if we've processed an entry already
 	traversed := map[string]struct{}{}
+	for _, e := range stack {
+		// root entries are already on the stack, never add them a second time
+		traversed[e.GetHash().String()] = struct{}{}
+	}
 	// End result
 	result := entry.NewOrderedMap()
 	// We keep a counter to check if we have traversed requested amount of entries
